@@ -272,7 +272,7 @@ func sumInts(a []int) (s int) {
 	return
 }
 
-var propFault = h.NewProp("TestPropFault", h.Budget{Quick: 1600, Thorough: 48000}, genFault, runFault)
+var propFault = h.NewProp("TestPropFault", h.Budget{Quick: 3200, Thorough: 48000}, genFault, runFault)
 
 func TestPropFault(t *testing.T) { propFault.Check(t); stopChild() }
 
@@ -314,6 +314,22 @@ func runCorrupt(c CorruptCase, rec *h.Rec) error {
 		return h.Failf("C08:harness", "%s", res.Err)
 	}
 	where := fmt.Sprintf("%s, header byte %d changed %#02x -> %#02x, reader %s", T, res.CorrAt, res.CorrOld, res.CorrNew, c.Reader)
+	desc := fmt.Sprintf("%s;%s;", T, c.Reader)
+	if err := judgeDamaged(T, where, res, rec); err != nil {
+		return err
+	}
+	if res.Died != "" {
+		rec.NonTrivial(desc + "died")
+	} else {
+		rec.NonTrivial(desc + fmt.Sprintf("mode=%d;early=%v", c.Corrupt.Mode, res.CorrAt < 24))
+	}
+	return nil
+}
+
+// judgeDamaged is the oracle for damaged input (single-byte corruption, fuzzing): an error, or an accepted object whose
+// encoding is a fixpoint; never a panic, a dead process, or an allocation above 64*len + 1 MiB. Listed findings are
+// booked in rec and skipped.
+func judgeDamaged(T, where string, res DecodeRes, rec *h.Rec) error {
 	known := func(key, msg string) error {
 		if rec.Known(key, msg) {
 			rec.Class("known=" + key)
@@ -321,10 +337,8 @@ func runCorrupt(c CorruptCase, rec *h.Rec) error {
 		}
 		return h.Failf(key, "%s: %s", where, msg)
 	}
-	desc := fmt.Sprintf("%s;%s;", T, c.Reader)
 	if res.Died != "" {
 		rec.Class("outcome=died")
-		rec.NonTrivial(desc + "died")
 		return known("C08:corrupt:"+diedClass(res.Died), "the process died: "+res.Died)
 	}
 	if len(res.Steps) == 0 {
@@ -360,10 +374,9 @@ func runCorrupt(c CorruptCase, rec *h.Rec) error {
 			return err
 		}
 	}
-	rec.NonTrivial(desc + fmt.Sprintf("mode=%d;early=%v", c.Corrupt.Mode, res.CorrAt < 24))
 	return nil
 }
 
-var propCorrupt = h.NewProp("TestPropCorrupt", h.Budget{Quick: 1600, Thorough: 48000}, genCorrupt, runCorrupt)
+var propCorrupt = h.NewProp("TestPropCorrupt", h.Budget{Quick: 3200, Thorough: 48000}, genCorrupt, runCorrupt)
 
 func TestPropCorrupt(t *testing.T) { propCorrupt.Check(t); stopChild() }
